@@ -131,7 +131,15 @@ def run(C, R):
         layer = state_layer(F, CG, sorted(C.roles(cfg).state_structs))
         fns = [fn for p, fn in F.fns.items() if p.lstrip('<').startswith('channel::')
                and not (fn.get('impl_trait') or '').endswith('fmt::Debug') and fn['kind'] != 'closure']
+        fn_paths = set(f_['path'] for f_ in fns)
         for fn in fns:
+            # a private helper (not part of the API, not a trait method) is judged where it is called: its callers are
+            # roots too, inline it, and know what they hand to it (e.g. a classifier of send_or_register's result,
+            # which never carries a value next to Pending - R1a)
+            callers_ = [c for c, _ in CG.callers_of(fn['path']) if c != fn['path']]
+            if callers_ and not fn.get('reachable') and not fn.get('impl_trait') and all(c in fn_paths for c in callers_) \
+                    and fn['path'] not in layer:
+                continue
             paths = E.run(fn['path'])
             R.add_paths(fn['path'], len(paths))
             for path in paths:
